@@ -13,8 +13,9 @@
 
 template <typename ElementType, typename InternalType>
 fcppt::container::bitfield::object<ElementType, InternalType>::object(
-    fcppt::no_init const &)
-// Don't initialize array_
+    fcppt::no_init const &_no_init)
+    // Don't initialize the contents of array_
+    : array_(_no_init)
 {
 }
 
